@@ -89,6 +89,11 @@ class TaskControl(object):
                     msg = f"Task '{task.name}': invalid setup task '{setup_task}'."
                     raise InvalidTask(msg)
 
+            for calc_dep in task.calc_dep:
+                if calc_dep not in self.tasks:
+                    msg = f"Task '{task.name}': invalid calc_dep task '{calc_dep}'."
+                    raise InvalidTask(msg)
+
 
     @staticmethod
     def set_implicit_deps(targets, task_list):
